@@ -92,7 +92,7 @@ func loop(ctx context.Context, v any, i int, path []string, new *any, action int
 			ret, err = loop(ctx, v[pathI], i+1, path, new, action)
 			if err == errOverwritePath {
 				v[pathI] = *new
-
+				ret = v
 			}
 			if err == nil {
 				v[pathI] = ret
@@ -120,7 +120,7 @@ func loop(ctx context.Context, v any, i int, path []string, new *any, action int
 					return nil, err
 				}
 				v[pathI] = s.(string)
-
+				ret = v
 			}
 			if err == nil {
 				v[pathI] = ret.(string)
@@ -148,7 +148,7 @@ func loop(ctx context.Context, v any, i int, path []string, new *any, action int
 					return nil, err
 				}
 				v[pathI] = i.(int)
-
+				ret = v
 			}
 			if err == nil {
 				v[pathI] = ret.(int)
@@ -176,7 +176,7 @@ func loop(ctx context.Context, v any, i int, path []string, new *any, action int
 					return nil, err
 				}
 				v[pathI] = f.(float64)
-
+				ret = v
 			}
 			if err == nil {
 				v[pathI] = ret.(float64)
@@ -204,7 +204,7 @@ func loop(ctx context.Context, v any, i int, path []string, new *any, action int
 					return nil, err
 				}
 				v[pathI] = b.(bool)
-
+				ret = v
 			}
 			if err == nil {
 				v[pathI] = ret.(bool)
@@ -215,7 +215,7 @@ func loop(ctx context.Context, v any, i int, path []string, new *any, action int
 			ret, err = loop(ctx, v[path[i]], i+1, path, new, action)
 			if err == errOverwritePath {
 				v[path[i]] = *new
-
+				ret = v
 			}
 			if err == nil {
 				v[path[i]] = ret
@@ -226,7 +226,7 @@ func loop(ctx context.Context, v any, i int, path []string, new *any, action int
 			ret, err = loop(ctx, v[path[i]], i+1, path, new, action)
 			if err == errOverwritePath {
 				v[path[i]] = *new
-
+				ret = v
 			}
 			if err == nil {
 				v[path[i]] = ret
@@ -241,7 +241,7 @@ func loop(ctx context.Context, v any, i int, path []string, new *any, action int
 					return nil, err
 				}
 				v[path[i]] = s.(string)
-
+				ret = v
 			}
 			if err == nil {
 				v[path[i]] = ret.(string)
